@@ -373,10 +373,11 @@ class TaskManager(SingletonLogging):
         if _debug: TaskManager._debug("process_task %r", task)
 
         # process the task
-        task.process_task()
-
-        # see if it should be rescheduled
-        if isinstance(task, RecurringTask):
-            task.install_task()
-        elif isinstance(task, OneShotDeleteTask):
-            del task
+        try:
+            task.process_task()
+        finally:
+            # see if it should be rescheduled, also when it failed this time
+            if isinstance(task, RecurringTask):
+                task.install_task()
+            elif isinstance(task, OneShotDeleteTask):
+                del task
